@@ -527,6 +527,9 @@ pub fn check_state<KK: KeyKind>(
                     format!("{ktn}: {form} of a record handed out with Ok fails: {err}")
                 }, replay);
                 if form == "bytes" {
+                    ctx.violate("C15", "record-has-no-decode-after-encode-image", &format!("{site}/{}", short_err(&d.res)), || {
+                        format!("{ktn}: decode(encode(r)) fails, so r cannot equal its image: {err}")
+                    }, replay);
                     ctx.violate("C05", "not-accepted-again-by-decoder", &format!("{site}/{}", short_err(&d.res)), || {
                         format!("{ktn}: decode(encode(r)) = {err}")
                     }, replay);
@@ -759,6 +762,7 @@ fn run_history_inner<KK: KeyKind>(ctx: &mut Ctx, h: &History, opts: &RunOpts) ->
         let pre = cur.clone();
         let pre_pairs: Pairs = pre.pairs.iter().cloned().collect();
         let mut pred = predict(pre.seq, &pre_pairs, &step.op, &ModelCtx { signer: ms_s, nonsigner: ms_n });
+        let before = guard(|| enr.clone()).ok();
         let res = guard(|| apply_op(&mut enr, &step.op, signer_k, nonsigner_k));
         let fired = KK::take_fired(signer_k);
         if fired {
@@ -799,6 +803,18 @@ fn run_history_inner<KK: KeyKind>(ctx: &mut Ctx, h: &History, opts: &RunOpts) ->
                 break;
             }
         };
+        // ---- C15: whatever the call did, a record that still compares equal to its former self carries the same
+        // pairs and encodes identically
+        if let Some(b) = &before {
+            if let Ok(true) = guard(|| *b == enr) {
+                ctx.count("c15.evals");
+                if post.pairs != pre.pairs || post.enc != pre.enc || post.hash != pre.hash {
+                    ctx.violate("C15", "equal-records-differ-in-content-or-encoding", &format!("before-vs-after/{opn}"), || {
+                        format!("{ktn}: after {opn} ({}) the record == its former self but pairs equal {} encoding equal {}", if res.is_ok() { "Ok" } else { "Err" }, post.pairs == pre.pairs, post.enc == pre.enc)
+                    }, &replay);
+                }
+            }
+        }
         let causes: String = {
             let mut v: Vec<&str> = pred.must.iter().map(|c| c.name()).collect();
             v.sort();
